@@ -36,6 +36,24 @@ func decodeCheck[T any](c *Ctx, cs *h.Case, name string, d []byte, read func([]b
 		if extra != nil {
 			all = append(all, extra(d)...)
 		}
+		// the same call on a copy with cap == len (a read through the capacity panics) and on a copy whose
+		// spare capacity completes a truncated literal: the outcome may depend on data[:len] only
+		// (seeded change C12r7-m1: the null fallback compares data[p:p+4] with an off-by-one bound)
+		if len(d) <= 64 {
+			t0 := sentinels[0]
+			p0v, e0 := dec(d, &t0)
+			tight := make([]byte, len(d))
+			copy(tight, d)
+			for vi, view := range [][]byte{tight[:len(d):len(d)], withBait(d)} {
+				tv := sentinels[0]
+				pv, ev := dec(view, &tv)
+				c.Rec.Evals(1)
+				if pv != p0v || (ev == nil) != (e0 == nil) || !eq(tv, t0) {
+					c.Rec.Violate(cs, "Decode"+name+" depends on the capacity behind len(data) or on the bytes in it", "Decode"+name, fmt.Sprintf("p=%d err=%s target=%v", p0v, errStr(e0), t0), fmt.Sprintf("view %d (0: cap==len, 1: continuation in the spare capacity): p=%d err=%s target=%v", vi, pv, errStr(ev), tv))
+				}
+			}
+			c.Rec.C("decode_calls_repeated_on_tight_and_baited_copies")
+		}
 		for _, s := range all {
 			t := s
 			p, err := dec(d, &t)
